@@ -348,6 +348,22 @@ def make_case(rng, k, M):
     c.n_state = rng.randint(0, 3)
     c.n_integ = rng.randint(1, 3)
     c.state = [np.array([rng.uniform(-5, 5) for _ in range(n)]) for _ in range(c.n_state)]
+    c.state_kinds = ['float'] * c.n_state
+    for q in range(c.n_state):
+        r_ = rng.random()
+        if r_ < 0.2:
+            # an optional per-point quantity that is unset (NaN) at some points
+            for i_ in rng.sample(range(n), rng.randint(1, max(1, n // 2))):
+                c.state[q][i_] = float('nan')
+            c.state_kinds[q] = 'float-with-nan'
+        elif r_ < 0.4:
+            # 64-bit integers beyond 2**53 (nanosecond time stamps, identifiers)
+            c.state[q] = np.array([rng.randint(2 ** 60, 2 ** 62) + rng.randint(0, 255)
+                                   for _ in range(n)], dtype=np.int64)
+            c.state_kinds[q] = 'int64-beyond-2**53'
+        elif r_ < 0.5:
+            c.state[q] = np.array([rng.randint(0, 200) for _ in range(n)], dtype=np.uint8)
+            c.state_kinds[q] = 'uint8'
     # integrated variables: one value per SEGMENT (n-1)
     c.integ = [np.array([rng.choice([0.0, rng.uniform(0.1, 1000.0), rng.uniform(0.1, 1000.0)])
                          for _ in range(n - 1)]) for _ in range(c.n_integ)]
@@ -383,7 +399,8 @@ def make_case(rng, k, M):
         return c
     after = [c.lats, c.lons] + c.state + c.integ
     c.input_mutated = [i for i, (a, b) in enumerate(zip(before, after))
-                       if not np.array_equal(a, b)]
+                       if a.dtype != np.asarray(b).dtype
+                       or not np.array_equal(a, b, equal_nan=a.dtype.kind == 'f')]
     # the same arrays gridded again must give the same answer (a trajectory is a value)
     c.regrid_differs = False
     if rng.random() < 0.3:
@@ -409,7 +426,7 @@ def make_case(rng, k, M):
         c.pieces.setdefault(s, []).append({
             'cell': (i, j), 'alt': None if ca is None else float(ca[p]),
             'time': None if ct is None else float(ct[p]),
-            'state': [float(x[p]) for x in sv[1:]], 'integ': [float(x[p]) for x in iv]})
+            'state': [x[p] for x in sv[1:]], 'integ': [float(x[p]) for x in iv]})
     return c
 
 
